@@ -135,6 +135,9 @@ def followup(real, twin, op, counters):
     return None
 
 
+# arithmetic, comparisons, calls, nested computed keys, and LiteralExpr terms: some definitions read no location at all
+# (tasks without dependencies)
+PROFILE = frozenset(["keys", "litexpr"])
 CHURN_WEIGHTS = {"define": 0.4, "leafval": 0.08, "val": 0.2, "iop": 0.05, "unreg": 0.2, "ftask": 0.03, "knob": 0.0,
                  "replace": 0.0, "unreg_task": 0.04, "load": 0.0, "refresh": 0.0, "cleanup": 0.0, "verify": 0.0}
 
@@ -144,9 +147,9 @@ def run_history(rng, counters, digests, samples, violations, known, nops, world_
     replay = world_ops is not None
     if replay:
         world, ops_in = world_ops
-        hg = gen.HistoryGen(rng, layered=True, profile="plain", world=(world, []))
+        hg = gen.HistoryGen(rng, layered=True, profile=PROFILE, world=(world, []))
     else:
-        hg = gen.HistoryGen(rng, layered=True, depth=rng.choice([2, 3]), profile="plain",
+        hg = gen.HistoryGen(rng, layered=True, depth=rng.choice([2, 3]), profile=PROFILE,
                             weights=CHURN_WEIGHTS if churn else {"define": 0.34, "leafval": 0.12, "val": 0.14, "iop": 0.06, "unreg": 0.12,
                                      "ftask": 0.04, "knob": 0.03, "replace": 0.02, "unreg_task": 0.04,
                                      "load": 0.05, "refresh": 0.02, "cleanup": 0.02, "verify": 0.02})
